@@ -730,6 +730,20 @@ theorem C03_lex_invalid_utf8_partial (b : Nat) (tl : Bytes) (c : Cur) (hb : 128 
   have h2 : ¬ b = 39 := by omega
   simp only [unexpectedChar, h1, h2, if_false, mkErr]
 
+/-- Outside the property as well, and exact: since the repair of `readString` (the default branch
+    appends the SOURCE bytes to the buffer) the string loop does not depend on whether an escape
+    sequence has been seen (`buf`): with or without escapes the value of a String token keeps the raw
+    bytes of every unescaped character, ill-formed UTF-8 included (`"\t\xFF"` has the value 09 FF;
+    before the repair 09 EF BF BD).  Block strings still re-encode what they decode. -/
+theorem C03_string_loop_buf_irrelevant (q : Cur) (l : Bytes) (c : Cur) (acc : Bytes) (b1 b2 : Bool) :
+    readStringLoop q l c acc b1 = readStringLoop q l c acc b2 :=
+  readStringLoop_buf_irrelevant q l c acc b1 b2
+
+example : ∃ c', readToken [34, 92, 116, 255, 34] Cur.init =
+    .tok { kind := .string, value := [9, 255], start := 0, stop := 5, line := 1, col := 2 } [] c' := by
+  simp [readToken, ws, readTokenBody, isNameStart, isDigit, readStringLoop.eq_def, decodeRune, runeError,
+    escapeOut, Cur.init, Cur.adv, colOf]
+
 -- non-ASCII sources: two-byte character in a string, a comment with a three-byte character, BOM
 example : Utf8.decode [0xEF, 0xBB, 0xBF, 34, 0xC3, 0xA9, 34] = some [0xFEFF, 34, 0xE9, 34] := by decide
 example : (match Spec.lex [0xFEFF, 34, 0xE9, 34] with | .ok ts => ts.map obsS | _ => []) =
@@ -752,3 +766,4 @@ example : BlocksOK 5 [0xFEFF, 34, 0xE9, 34] = true := by decide
 #print axioms C03_lex_utf8_no_block
 #print axioms C03_lex_utf8_outcome
 #print axioms C03_lex_invalid_utf8_partial
+#print axioms C03_string_loop_buf_irrelevant
